@@ -109,8 +109,7 @@ func runPrio(c *Ctx) {
 		return
 	}
 	c.R.Add("PRIO-D", "resolver|discount-site", "resolver", r1.Pos, core.Outer(r1.Fn) == res || p.InRegion(r1.Fn, res), "the only re-weighting of existing edges happens in the resolver", "in "+core.FuncName(r1.Fn))
-	rcall := r1.Call
-	cg := rcall.Common().Args[0]
+	cg := r1.G
 	cpCall, isCopy := cg.(*ssa.Call)
 	var gParam *ssa.Parameter
 	for _, prm := range res.Params {
@@ -123,14 +122,14 @@ func runPrio(c *Ctx) {
 		"re-weighting is applied to a Copy() of the call's graph, never to the graph shared by all parameters", fmt.Sprintf("ok=%v", onCopy))
 	// src ranges over InEdges(copy, raw)
 	srcOK := false
-	if r, ok := core.Root(rcall.Common().Args[1]).(*ssa.Call); ok && core.CalleeName(r.Common()) == core.GInEdges && r.Common().Args[0] == cg {
+	if r, ok := core.Root(r1.C).(*ssa.Call); ok && core.CalleeName(r.Common()) == core.GInEdges && (r.Common().Args[0] == cg || p.Bind(core.Strip(r.Common().Args[0])) == cg) {
 		srcOK = true
 	}
 	c.R.Add("PRIO-D", "resolver|all-in-edges-of-copy", "resolver", r1.Pos, srcOK, "every in-edge of the matching vertex is re-weighted, enumerated on the same copy", fmt.Sprintf("ok=%v", srcOK))
 	// guard: raw is a value vertex with Name == current.Name, current a value vertex
 	var current ssa.Value
 	nameGuard, kindGuard, curIsValue := false, false, false
-	rawPath := core.Path(rcall.Common().Args[2])
+	rawPath := core.Path(r1.P)
 	// the edge's own guards plus, when the discount loop lives in a private helper, the guards of its call site; values
 	// handed in as helper parameters (the current parameter's name) read as the caller's
 	r1Lits := r1.Lits
@@ -145,7 +144,11 @@ func runPrio(c *Ctx) {
 				for _, pair := range [][2]core.FieldRef{{fx, fy}, {fy, fx}} {
 					if ta := assertOf(pair[0].Base); ta != nil && core.Path(ta.X) == rawPath {
 						nameGuard = true
-						if tb := assertOf(pair[1].Base); tb != nil {
+						cb := pair[1].Base
+						if prm, isPrm := core.Strip(cb).(*ssa.Parameter); isPrm {
+							cb = p.Bind(prm) // the already-asserted current parameter handed to the discounting step
+						}
+						if tb := assertOf(cb); tb != nil {
 							current = tb.X
 						}
 					}
@@ -162,8 +165,23 @@ func runPrio(c *Ctx) {
 			}
 		}
 	}
+	// the asserted operand may itself be the parameter of the private step that makes the copy: name it by what the
+	// resolver hands in (the element of the per-parameter iteration)
+	curAsserted := current
+	if prm, isPrm := current.(*ssa.Parameter); isPrm {
+		if b := p.Bind(prm); b != ssa.Value(prm) {
+			current = b
+		}
+	}
 	if current != nil {
 		curIsValue = false
+		for _, l := range r1Lits {
+			if l.Kind == "ok" && l.Pol {
+				if ta, ok := l.Of.(*ssa.TypeAssert); ok && ta.X == curAsserted && core.NamedOf(ta.AssertedType) == kinds.Value {
+					curIsValue = true
+				}
+			}
+		}
 		for _, l := range r1Lits {
 			if l.Kind == "ok" && l.Pol {
 				if ta, ok := l.Of.(*ssa.TypeAssert); ok && ta.X == current && core.NamedOf(ta.AssertedType) == kinds.Value {
@@ -265,7 +283,12 @@ func runPrio(c *Ctx) {
 		if e, ok := ep.Common().Args[2].(*ssa.Extract); ok && e.Tuple == ssa.Value(dj) && e.Index == 1 {
 			fromDj = true
 		}
-		tgtOK := current == nil || ep.Common().Args[1] == current
+		// the target, followed through the parameter of a private path-search step
+		tgt := ep.Common().Args[1]
+		if prm, isPrm := core.Strip(tgt).(*ssa.Parameter); isPrm {
+			tgt = p.Bind(prm)
+		}
+		tgtOK := current == nil || ep.Common().Args[1] == current || tgt == current
 		c.R.Add("PRIO-P", "resolver|path-of-current-from-this-search", "resolver", p.InstrPos(ep), fromDj && tgtOK, "the path is read from this search's predecessor map, for the parameter being resolved", fmt.Sprintf("edgeTo-from-this-dijkstra=%v target-is-current=%v", fromDj, tgtOK))
 		// the searched graph is the call graph or this iteration's copy
 		gOK := false
